@@ -94,6 +94,8 @@ def sanitizer_campaign(ctx, shard, count):
 
 
 def build_case(data, mode):
+    if mode == 'long':
+        return gen_sent.t_long_case(Tape(data))
     case = _build_case(data, mode)
     # validity / score accounting do not depend on completeness of the search: bound the n-best search,
     # which otherwise explores every derivation when fewer than nbest parses exist
@@ -113,9 +115,10 @@ def _shard(ctx, shard, nshards):
     native.setup()
     if shard < ctx.scale(2, 16):
         sanitizer_campaign(ctx, shard, ctx.scale(150, 1500))
-    for mode, n_examples, size in (('table', ctx.scale(1000, 20000), 700), ('real', ctx.scale(80, 1500), 700)):
+    for mode, n_examples, size in (('table', ctx.scale(1000, 20000), 700), ('real', ctx.scale(80, 1500), 700),
+                                  ('long', ctx.scale(3, 30), 400)):
         def factory(mode=mode, n_examples=n_examples, size=size):
-            @seed(runner.hseed(ctx, 2 if mode == 'table' else 102))
+            @seed(runner.hseed(ctx, {'table': 2, 'real': 102, 'long': 202}[mode]))
             @runner.hsettings(n_examples)
             @given(tapes(size))
             def test(data):
